@@ -815,6 +815,30 @@ func symtabInvAt(t *SymbolTable) bool {
 // ---------------------------------------------------------------------------
 // Go boundary (C20)
 
+// specMapNoNil: no key of m is bound to a nil Object.
+func specMapNoNil(m Map) bool {
+	return verifrt.Forall(func(key string) bool {
+		val, ok := m[key]
+		return !ok || val != nil
+	})
+}
+
+// specNoNilElems: the conversion of a []any has the same length and no nil
+// element; the conversion of a map[string]any binds no key to nil.
+func specNoNilElems(v any, ret Object) bool {
+	switch v := v.(type) {
+	case []any:
+		a, ok := ret.(Array)
+		return ok && len(a) == len(v) && verifrt.Forall(func(k int) bool {
+			return !(0 <= k && k < len(a)) || a[k] != nil
+		})
+	case map[string]any:
+		m, ok := ret.(Map)
+		return ok && m != nil && specMapNoNil(m)
+	}
+	return true
+}
+
 // specSameScalar: same dynamic type and same value (bit equality for floats).
 func specSameScalar(a, b Object) bool {
 	switch x := a.(type) {
